@@ -2,6 +2,7 @@ package harness
 
 import (
 	"bytes"
+	"context"
 	"encoding/json"
 	"fmt"
 	"io"
@@ -13,15 +14,18 @@ import (
 	"sort"
 	"strings"
 	"sync"
+	"sync/atomic"
 	"testing"
 	"testing/synctest"
 	"time"
 
 	ocr2keepers "github.com/smartcontractkit/chainlink-common/pkg/types/automation"
+	ocr2plustypes2 "github.com/smartcontractkit/libocr/offchainreporting2plus/types"
 
 	"github.com/smartcontractkit/chainlink-automation/tools/simulator/config"
 	"github.com/smartcontractkit/chainlink-automation/tools/simulator/run"
 	"github.com/smartcontractkit/chainlink-automation/tools/simulator/simulate/chain"
+	simdb "github.com/smartcontractkit/chainlink-automation/tools/simulator/simulate/db"
 	"github.com/smartcontractkit/chainlink-automation/tools/simulator/simulate/loader"
 	"github.com/smartcontractkit/chainlink-automation/tools/simulator/telemetry"
 	"github.com/smartcontractkit/chainlink-automation/tools/simulator/util"
@@ -424,11 +428,23 @@ func TestC20TrackChild(t *testing.T) {
 }
 
 func c20RunTrackChild(in c20Input, exe string) c20TrackImpl {
+	var r c20TrackImpl
+	for attempt := 0; attempt < 3; attempt++ {
+		var tsan bool
+		r, tsan = c20RunTrackChildOnce(in, exe)
+		if !tsan {
+			break
+		}
+	}
+	return r
+}
+
+func c20RunTrackChildOnce(in c20Input, exe string) (c20TrackImpl, bool) {
 	impl := c20TrackImpl{Lines: []c20TrackerLine{}, RaceSites: []string{}, RaceBuild: true}
 	dir, err := os.MkdirTemp("", "c20track")
 	if err != nil {
 		impl.Crash = "harness: " + err.Error()
-		return impl
+		return impl, false
 	}
 	defer os.RemoveAll(dir)
 	b, _ := json.Marshal(in)
@@ -464,7 +480,7 @@ func c20RunTrackChild(in c20Input, exe string) c20TrackImpl {
 	if ee, ok := runErr.(*exec.ExitError); ok && impl.Races == 0 && len(impl.RacesIgnored) == 0 && impl.Crash == "" && ee.ExitCode() != 66 {
 		impl.Crash = fmt.Sprintf("child exit %d: %s", ee.ExitCode(), c20Tail(buf.String(), 300))
 	}
-	return impl
+	return impl, strings.Contains(buf.String(), "ThreadSanitizer: CHECK failed")
 }
 
 // c20RaceExeFor builds the race-enabled test binary against the tree under test.
@@ -634,11 +650,23 @@ func TestC20CollectorChild(t *testing.T) {
 }
 
 func c20RunCollector(in c20Input, exe string, raceBuild bool) c20CollectorResult {
+	var r c20CollectorResult
+	for attempt := 0; attempt < 3; attempt++ {
+		var tsan bool
+		r, tsan = c20RunCollectorOnce(in, exe, raceBuild)
+		if !tsan {
+			break
+		}
+	}
+	return r
+}
+
+func c20RunCollectorOnce(in c20Input, exe string, raceBuild bool) (c20CollectorResult, bool) {
 	res := c20CollectorResult{RaceSites: []string{}, RaceBuild: raceBuild}
 	dir, err := os.MkdirTemp("", "c20collector")
 	if err != nil {
 		res.Crash = "harness: " + err.Error()
-		return res
+		return res, false
 	}
 	defer os.RemoveAll(dir)
 	outPath := filepath.Join(dir, "result.json")
@@ -666,5 +694,175 @@ func c20RunCollector(in c20Input, exe string, raceBuild bool) c20CollectorResult
 	if ee, ok := runErr.(*exec.ExitError); ok && res.Crash == "" && res.Races == 0 {
 		res.Crash = fmt.Sprintf("child exit %d: %s", ee.ExitCode(), c20Tail(out, 300))
 	}
-	return res
+	return res, strings.Contains(out, "ThreadSanitizer: CHECK failed")
+}
+
+// ---------------------------------------------------------------- simulated databases under concurrent callers
+
+// libocr calls a node's OCR3 database from several goroutines (protocol state, config), and the node's four
+// ineligible post-processors (log trigger, retry, two recovery flows) share one upkeep-state updater.  Un-timed
+// stress through the exported API in a child process (a plain build dies with an unrecoverable "concurrent map
+// ..." fatal error when a map is not guarded): `nodes` goroutines x `rounds` calls.
+//   part "ocr3":   Write/ReadProtocolState over 8 keys, Write/ReadConfig; every read must return a value some
+//                  writer wrote; after the join every key holds the value of the last round that wrote it
+//   part "upkeep": SetUpkeepState over 64 work ids; every call must return nil
+
+const c20DBOutEnv = "C20_DB_OUT"
+
+type c20DBResult struct {
+	Calls    int64 `json:"calls"`
+	Errors   int64 `json:"errors"`
+	BadReads int64 `json:"bad_reads"` // a read returned something no writer wrote
+	FinalOK  bool  `json:"final_ok"`
+	Done     bool  `json:"done"`
+	// filled by the parent
+	Crash     string   `json:"crash"`
+	CrashAt   string   `json:"crash_at"`
+	Races     int      `json:"races"`
+	RaceSites []string `json:"race_sites"`
+	RaceBuild bool     `json:"race_build"`
+	WallMs    int64    `json:"wall_ms"`
+}
+
+// TestC20DBChild is the helper run in the child process only.
+func TestC20DBChild(t *testing.T) {
+	outPath := os.Getenv(c20DBOutEnv)
+	if outPath == "" {
+		t.Skip("helper for TestC20 (child process only)")
+	}
+	var in c20Input
+	if err := json.Unmarshal([]byte(os.Getenv("C20_DB_IN")), &in); err != nil {
+		t.Fatal(err)
+	}
+	var res c20DBResult
+	var calls, errs, bad atomic.Int64
+	var wg sync.WaitGroup
+	start := make(chan struct{})
+	ctx := context.Background()
+	const keys = 8
+	switch in.Part {
+	case "ocr3":
+		d := simdb.NewSimulatedOCR3Database()
+		var digest ocr2plustypes2.ConfigDigest
+		for g := 0; g < in.Nodes; g++ {
+			wg.Add(1)
+			go func(g int) {
+				defer wg.Done()
+				<-start
+				for i := 0; i < in.Rounds; i++ {
+					key := fmt.Sprintf("k%d", i%keys)
+					if err := d.WriteProtocolState(ctx, digest, key, []byte{byte(g), byte(i), byte(i >> 8)}); err != nil {
+						errs.Add(1)
+					}
+					v, err := d.ReadProtocolState(ctx, digest, key)
+					if err != nil {
+						errs.Add(1)
+					}
+					if len(v) != 3 || int(v[0]) >= in.Nodes || (int(v[1])|int(v[2])<<8)%keys != i%keys {
+						bad.Add(1)
+					}
+					calls.Add(2)
+					if i%16 == 0 {
+						if err := d.WriteConfig(ctx, ocr2plustypes2.ContractConfig{ConfigCount: uint64(i + 1)}); err != nil {
+							errs.Add(1)
+						}
+						c, err := d.ReadConfig(ctx)
+						if err != nil || c == nil || c.ConfigCount == 0 {
+							bad.Add(1)
+						}
+						calls.Add(2)
+					}
+				}
+			}(g)
+		}
+		close(start)
+		wg.Wait()
+		res.FinalOK = true
+		for k := 0; k < keys && k < in.Rounds; k++ {
+			last := in.Rounds - 1 - (in.Rounds-1-k)%keys // the last round that wrote key k
+			v, _ := d.ReadProtocolState(ctx, digest, fmt.Sprintf("k%d", k))
+			if len(v) != 3 || int(v[1])|int(v[2])<<8 != last&0xffff {
+				res.FinalOK = false
+			}
+		}
+		// "writing with a nil value is the same as deleting"; an unknown key reads as nil
+		_ = d.WriteProtocolState(ctx, digest, "k0", nil)
+		if v, _ := d.ReadProtocolState(ctx, digest, "k0"); v != nil {
+			res.FinalOK = false
+		}
+		if v, err := d.ReadProtocolState(ctx, digest, "unknown"); v != nil || err != nil {
+			res.FinalOK = false
+		}
+	case "upkeep":
+		u := simdb.NewUpkeepStateDatabase()
+		for g := 0; g < in.Nodes; g++ {
+			wg.Add(1)
+			go func(g int) {
+				defer wg.Done()
+				<-start
+				for i := 0; i < in.Rounds; i++ {
+					if err := u.SetUpkeepState(ctx, ocr2keepers.CheckResult{WorkID: fmt.Sprintf("w%d", (i+g)%64)}, ocr2keepers.Ineligible); err != nil {
+						errs.Add(1)
+					}
+					calls.Add(1)
+				}
+			}(g)
+		}
+		close(start)
+		wg.Wait()
+		res.FinalOK = true
+	default:
+		t.Fatalf("unknown part %q", in.Part)
+	}
+	res.Calls, res.Errors, res.BadReads, res.Done = calls.Load(), errs.Load(), bad.Load(), true
+	b, _ := json.Marshal(res)
+	_ = os.WriteFile(outPath, b, 0o644)
+}
+
+func c20RunDB(in c20Input, exe string, raceBuild bool) c20DBResult {
+	var r c20DBResult
+	for attempt := 0; attempt < 3; attempt++ {
+		var tsan bool
+		r, tsan = c20RunDBOnce(in, exe, raceBuild)
+		if !tsan {
+			break
+		}
+	}
+	return r
+}
+
+func c20RunDBOnce(in c20Input, exe string, raceBuild bool) (c20DBResult, bool) {
+	res := c20DBResult{RaceSites: []string{}, RaceBuild: raceBuild}
+	dir, err := os.MkdirTemp("", "c20db")
+	if err != nil {
+		res.Crash = "harness: " + err.Error()
+		return res, false
+	}
+	defer os.RemoveAll(dir)
+	outPath := filepath.Join(dir, "result.json")
+	inJSON, _ := json.Marshal(in)
+	cmd := exec.Command(exe, "-test.run", "^TestC20DBChild$", "-test.timeout", "5m")
+	cmd.Env = append(os.Environ(), c20DBOutEnv+"="+outPath, "C20_DB_IN="+string(inJSON), "VERIF_OUT="+filepath.Join(dir, "unused.jsonl"))
+	var buf bytes.Buffer
+	cmd.Stdout, cmd.Stderr = &buf, &buf
+	t0 := time.Now()
+	runErr := cmd.Run()
+	if b, err := os.ReadFile(outPath); err == nil {
+		_ = json.Unmarshal(b, &res)
+	}
+	res.RaceSites, res.RaceBuild = []string{}, raceBuild
+	res.WallMs = time.Since(t0).Milliseconds()
+	out := buf.String()
+	for _, rep := range c20RaceReports(out) {
+		if !rep.ignored {
+			res.Races++
+			res.RaceSites = append(res.RaceSites, rep.site)
+		}
+	}
+	sort.Strings(res.RaceSites)
+	res.Crash, res.CrashAt, _ = c20CrashSite(out)
+	if ee, ok := runErr.(*exec.ExitError); ok && res.Crash == "" && res.Races == 0 {
+		res.Crash = fmt.Sprintf("child exit %d: %s", ee.ExitCode(), c20Tail(out, 300))
+	}
+	return res, strings.Contains(out, "ThreadSanitizer: CHECK failed")
 }
